@@ -324,7 +324,7 @@ Proof. vm_compute. auto. Qed.
 
 Lemma refuted_digit_limit :
   let h := bytes_of_string "bytes=" ++ repeat 48 4301 ++ [45] in        (* 4301 zeros, "-" *)
-  range_strict h = false /\ rfc_ranges h = Some [From 0] /\ status (render GET ten_bytes (Some h)) = 200.
+  rfc_ranges h = Some [From 0] /\ status (render GET ten_bytes (Some h)) = 200.
 Proof. vm_compute. auto. Qed.
 
 Lemma pins_ok :
